@@ -21,7 +21,7 @@ from .. import cover, gen, sysgen
 
 LEVEL = 'exploration'
 JOBS = {'quick': 4, 'thorough': 16}
-REQUIRED_MONITORS = ('instances_vs_truth', 'access_consistency', 'negative_topology')
+REQUIRED_MONITORS = ('interleaved_access', 'instances_vs_truth', 'access_consistency', 'negative_topology')
 REQUIRED_CLASSES = ('enumerated', 'random-long', 'species:multi-residue', 'species:repeated-residue',
                     'species:same-name-other-size', 'solvent-interleaved', 'order:permuted', 'api:files', 'api:tops',
                     'negative:absent-species', 'negative:pattern-at-end', 'negative:refused-then-system-used-again', 'api:tops+refused')
@@ -217,6 +217,38 @@ def check_system(ctx, s, instances, species, w, deep):
             break
     if [mol_key(m) for m in s] != keys:
         ctx.violation('second-iteration-differs', 'iterating twice gives different molecules', witness=w)
+    # interleaved access: several iterations in progress at once, with indexing, slicing and len() between their steps
+    if n >= 2:
+        ctx.monitor('interleaved_access')
+        ri = np.random.default_rng(n + 11)
+        its = [[iter(s), 0], [iter(s), 0]]
+        hist = []
+        for _ in range(min(4 * n + 6, 60)):
+            op = int(ri.integers(0, 5))
+            try:
+                if op <= 1 or op == 4:
+                    it = its[op % 2]
+                    if it[1] >= n:
+                        its[op % 2] = it = [iter(s), 0]
+                        hist.append(('restart', op % 2))
+                    got = mol_key(next(it[0]))
+                    hist.append(('next', op % 2, it[1]))
+                    bad = got != keys[it[1]]
+                    it[1] += 1
+                elif op == 2:
+                    k = int(ri.integers(-n, n))
+                    hist.append(('index', k))
+                    bad = mol_key(s[k]) != keys[k]
+                else:
+                    a, b = sorted(int(x) for x in ri.integers(0, n + 1, 2))
+                    hist.append(('slice', a, b))
+                    bad = [mol_key(m) for m in s[a:b]] != keys[a:b] or len(s) != n
+            except Exception as exc:  # noqa
+                ctx.violation(f'interleaved-access-raises:{type(exc).__name__}', f'{hist[-4:]} (n={n}): {str(exc)[:120]}', witness=dict(w, history=hist[-12:]))
+                break
+            if bad:
+                ctx.violation('interleaved-access-disagrees', f'after {hist[-4:]} (n={n}) the molecule handed out is not the one of that position', witness=dict(w, history=hist[-12:]))
+                break
     return True
 
 
